@@ -1,7 +1,7 @@
 ------------------------------- MODULE GenRelay -------------------------------
 EXTENDS Relay, Json
 VARIABLE c
-Init == c \in PairCases
+Init == c \in PairCases \cup ExpectCases
 Next == UNCHANGED c
 Emit == PrintT("CASE " \o ToJson(c))
 =============================================================================
